@@ -396,7 +396,7 @@ class ObjEvaluator(Evaluator):
             if pm:
                 raise AnalysisError("E7: the model of %s has no attribute `%s` (line %d)" % (base.name.split("#")[0], node.attr, node.lineno))
             raise PyRaise("AttributeError", node, "%s has no attribute %s" % (base.name, node.attr))
-        if isinstance(base, (SStr, Sym, str, dict, list)) or (isinstance(base, tuple) and len(base) == 2 and base[0] == "regex"):
+        if isinstance(base, (SStr, Sym, str, dict, list)) or (isinstance(base, tuple) and len(base) == 2 and base[0] in ("regex", "rematch")):
             return ("method", base, node.attr)
         self.hand_down(node.value, base)
         r = Evaluator.e_Attribute(self, node, env)
@@ -787,7 +787,16 @@ class ObjEvaluator(Evaluator):
 
     def builtin(self, name, args, kwargs, node):
         if name in ("float", "int") and len(args) == 1:
-            return self.convert(name, args[0], node)
+            r = self.convert(name, args[0], node)
+            if name == "int" and isinstance(args[0], Rat) and args[0].is_const() and isinstance(node, ast.Call) \
+                    and isinstance(node.func, ast.Name) and node.func.id == "int" and len(node.args) == 1:
+                # exact folding truncates the exact value; the code truncates the binary one (xfabsa/floatshadow.py)
+                from . import floatshadow
+                t = floatshadow.truncation(self, node.args[0], getattr(self, "_call_env", {}), Fraction(args[0].const_value()))
+                if t is not None and isinstance(r, Rat) and r.is_const() and t != r.const_value():
+                    self.__dict__.setdefault("float_notes", []).append((node.lineno, unparse(node)[:80], r.const_value(), t))
+                    return Rat.const(t)
+            return r
         if name == "str" and len(args) == 1:
             t = self.to_text(args[0], node)
             return t.simplify() if isinstance(t, SStr) else t
@@ -1030,7 +1039,11 @@ class ObjEvaluator(Evaluator):
                     return SStr([_re.sub(base[1], args[0], p_) if isinstance(p_, str) else p_ for p_ in s_.parts]).simplify()
             if attr == "split" and len(args) == 1 and isinstance(args[0], str):
                 return _re.split(base[1], args[0])
-            raise AnalysisError("E7: regular-expression method %s (line %d)" % (attr, node.lineno))
+            if args and all(isinstance(a_, str) for a_ in args):
+                return Evaluator.method_call(self, base, attr, args, kwargs, node)
+            raise AnalysisError("E7: regular-expression method %s on text that is not constant (line %d)" % (attr, node.lineno))
+        if isinstance(base, tuple) and len(base) == 2 and base[0] == "rematch":
+            return Evaluator.method_call(self, base, attr, args, kwargs, node)
         r = Evaluator.method_call(self, base, attr, args, kwargs, node)
         if isinstance(base, (str, SStr, Sym, dict, list)) and isinstance(r, Opaque) and r.shape is None and (".%s(" % attr) in r.base:
             # the generic "unknown method" fallback: for text and containers that would be a silently wrong value
